@@ -34,7 +34,10 @@ func (g *vfGen) field(depth int) *Field {
 	case 1:
 		g.raw("*")
 		f.Expr = &Wildcard{}
-		switch g.pick(3) {
+		g.nest++
+		wt := g.pick(3)
+		g.nest--
+		switch wt {
 		case 1:
 			g.raw("::")
 			g.kw("FIELD")
@@ -1043,4 +1046,21 @@ var vfStmtGens = []vfStmtGen{
 	{"dropsimple", genDropSimple},
 	{"createsub", genCreateSubscription},
 	{"createcq", genCreateContinuousQuery},
+}
+
+// vfBudget is the shape-enumeration budget of a statement family: quick = one deviation from the default
+// skeleton plus one nested inside it; thorough = pairwise deviations for the families whose variant
+// count keeps the square affordable, one deviation with two nested levels for the others.
+var vfPairwiseFamilies = map[string]bool{"createsub": true, "delete": true, "dropseries": true, "dropsimple": true, "showdiag": true,
+	"showfieldkeys": true, "showgrants": true, "showmeasurements": true, "showrp": true, "showseries": true, "showsimple": true,
+	"showstats": true, "users": true}
+
+func vfBudget(name string, tier int) (budget, sub int) {
+	if tier == 0 {
+		return 1, 1
+	}
+	if vfPairwiseFamilies[name] {
+		return 2, 1
+	}
+	return 1, 2
 }
